@@ -41,6 +41,58 @@ def _analyse(prop, d, tag):
     return [r for r in ck.results if r["verdict"] in (core.VIOLATION, core.ANCHOR)]
 
 
+def _worker(args):
+    prop, items, wid, known, base = args
+    tag = "selftest-%s-%d" % (prop, wid)
+    d = _scratch(extract.REPO)
+    out = {"seeded": [], "benign": []}
+    try:
+        for kind, x, meta in items:
+            if kind == "seed":
+                sdir = x
+                patch = os.path.join(sdir, "patch.rebased.diff")  # rebased onto the current /repo HEAD after a `fix:` commit
+                if not os.path.exists(patch):
+                    patch = os.path.join(sdir, "patch.diff")
+                name = os.path.basename(sdir)
+                if not _apply(d, patch):
+                    out["seeded"].append({"seed": name, "result": "skipped (patch does not apply to the current tree)"})
+                    continue
+                try:
+                    viol = _analyse(prop, d, tag)
+                    keys = [v["key"] for v in viol if v["key"] not in known and v["key"] not in base]
+                    want = meta["detected_by"][prop]
+                    hit = [k for k in keys if any(w in k for w in want)]
+                    own = meta.get("property", prop) == prop
+                    res = "detected" if hit else ("detected-by-other-rule" if keys else ("MISSED" if own else "not reported (incidental: this change was written against %s)" % meta.get("property")))
+                    out["seeded"].append({"seed": name, "result": res, "keys": keys[:6]})
+                except SystemExit as e:
+                    out["seeded"].append({"seed": name, "result": "error: %s" % e})
+                finally:
+                    _apply(d, patch, reverse=True)
+            else:
+                patch = x
+                name = os.path.basename(os.path.dirname(patch))
+                if os.path.exists(os.path.join(os.path.dirname(patch), "patch.rebased.diff")):
+                    patch = os.path.join(os.path.dirname(patch), "patch.rebased.diff")
+                if not _apply(d, patch):
+                    out["benign"].append({"variant": name, "result": "skipped (patch does not apply to the current tree)"})
+                    continue
+                try:
+                    viol = _analyse(prop, d, tag)
+                    keys = [v["key"] for v in viol if v["key"] not in known and v["key"] not in base]
+                    out["benign"].append({"variant": name, "result": "silent" if not keys else "FALSE-ALARM", "keys": keys[:6]})
+                except SystemExit as e:
+                    out["benign"].append({"variant": name, "result": "error: %s" % e})
+                finally:
+                    _apply(d, patch, reverse=True)
+    finally:
+        shutil.rmtree(d, ignore_errors=True)
+        shutil.rmtree(os.path.join(extract.WORK, "tgt-%s-full" % tag), ignore_errors=True)
+        for f_ in glob.glob(os.path.join(extract.WORK, "facts", "%s-*" % tag)):
+            os.remove(f_)
+    return out
+
+
 def run(prop, base_check):
     seeded = []
     for m in sorted(glob.glob(os.path.join(VERIF, "seeded", "*", "meta.json"))):
@@ -62,50 +114,25 @@ def run(prop, base_check):
         return {"seeded": [], "benign": [], "note": "no stored variants for this property"}
     known = {k["key"] for k in core.load_known() if k.get("status") == "open"}
     base = {r["key"] for r in (base_check.results if base_check else []) if r["verdict"] in (core.VIOLATION, core.ANCHOR)}
-    tag = "selftest-" + prop
-    d = _scratch(extract.REPO)
+    # the variants are independent: they are spread over worker processes, each with its own scratch copy and
+    # extraction tag (VERIF_SELFTEST_JOBS, default: half of the cores, at most 8)
+    jobs = max(1, min(int(os.environ.get("VERIF_SELFTEST_JOBS", "0")) or (os.cpu_count() or 2) // 2, 8))
+    items = [("seed", sdir, meta) for sdir, meta in seeded] + [("benign", patch, None) for patch in benign]
+    chunks = [items[k::jobs] for k in range(jobs)]
+    chunks = [c for c in chunks if c]
     out = {"seeded": [], "benign": []}
-    try:
-        for sdir, meta in seeded:
-            patch = os.path.join(sdir, "patch.rebased.diff")  # rebased onto the current /repo HEAD after a `fix:` commit
-            if not os.path.exists(patch):
-                patch = os.path.join(sdir, "patch.diff")
-            name = os.path.basename(sdir)
-            if not _apply(d, patch):
-                out["seeded"].append({"seed": name, "result": "skipped (patch does not apply to the current tree)"})
-                continue
-            try:
-                viol = _analyse(prop, d, tag)
-                keys = [v["key"] for v in viol if v["key"] not in known and v["key"] not in base]
-                want = meta["detected_by"][prop]
-                hit = [k for k in keys if any(w in k for w in want)]
-                own = meta.get("property", prop) == prop
-                res = "detected" if hit else ("detected-by-other-rule" if keys else ("MISSED" if own else "not reported (incidental: this change was written against %s)" % meta.get("property")))
-                out["seeded"].append({"seed": name, "result": res, "keys": keys[:6]})
-            except SystemExit as e:
-                out["seeded"].append({"seed": name, "result": "error: %s" % e})
-            finally:
-                _apply(d, patch, reverse=True)
-        for patch in benign:
-            name = os.path.basename(os.path.dirname(patch))
-            if os.path.exists(os.path.join(os.path.dirname(patch), "patch.rebased.diff")):
-                patch = os.path.join(os.path.dirname(patch), "patch.rebased.diff")
-            if not _apply(d, patch):
-                out["benign"].append({"variant": name, "result": "skipped (patch does not apply to the current tree)"})
-                continue
-            try:
-                viol = _analyse(prop, d, tag)
-                keys = [v["key"] for v in viol if v["key"] not in known and v["key"] not in base]
-                out["benign"].append({"variant": name, "result": "silent" if not keys else "FALSE-ALARM", "keys": keys[:6]})
-            except SystemExit as e:
-                out["benign"].append({"variant": name, "result": "error: %s" % e})
-            finally:
-                _apply(d, patch, reverse=True)
-    finally:
-        shutil.rmtree(d, ignore_errors=True)
-        shutil.rmtree(os.path.join(extract.WORK, "tgt-%s-full" % tag), ignore_errors=True)
-        for f_ in glob.glob(os.path.join(extract.WORK, "facts", "%s-*" % tag)):
-            os.remove(f_)
+    if len(chunks) <= 1:
+        parts = [_worker((prop, chunks[0] if chunks else [], 0, known, base))]
+    else:
+        import multiprocessing
+
+        with multiprocessing.get_context("fork").Pool(len(chunks)) as pool:
+            parts = pool.map(_worker, [(prop, c, k, known, base) for k, c in enumerate(chunks)])
+    for part in parts:
+        out["seeded"] += part["seeded"]
+        out["benign"] += part["benign"]
+    out["seeded"].sort(key=lambda x: x["seed"])
+    out["benign"].sort(key=lambda x: x["variant"])
     for s in out["seeded"]:
         if s["result"] == "MISSED":
             print("SELFTEST-MISS property=%s seed=%s (the check no longer detects a stored seeded change)" % (prop, s["seed"]))
